@@ -52,3 +52,210 @@ parse_residue_spec = FunctionContract(
 
 CONTRACTS = [parse_residue_spec]
 LEMMAS = []
+
+
+# ------------------------------------------------------------------ _subdict: "all given parts of the specification match"
+import itertools as _it
+
+PARTS = {'chain': TStr, 'resname': TStr, 'resid': TInt}
+
+
+def _cd(cx, tag, keys, types, opt=False):
+    b = Box(None, kind='dict')
+    b.cd = {k: cx.val('%s_%s' % (tag, k), TOpt(types[k]) if opt else types[k]) for k in keys}
+    return b
+
+
+def subdict_case(keys):
+    def setup(cx):
+        # dict2 is the residue's {chain, resid, resname, insertion_code} with res_node.get(key): any of them may be None
+        return dict(dict1=_cd(cx, 'spec', keys, PARTS),
+                    dict2=_cd(cx, 'res', ['chain', 'resid', 'resname', 'insertion_code'], dict(PARTS, insertion_code=TStr), opt=True))
+    want = " and ".join("dict2['%s'] == dict1['%s']" % (k, k) for k in keys) or "True"
+    return FunctionContract(F, '_subdict', 'C19', short='_subdict[%s]' % ','.join(keys), setup=setup,
+                            ensures=["result == (%s)" % want],
+                            canary=[("dict2[key] != val", "dict2[key] == val")] if keys else [])
+
+
+SUBDICT = [subdict_case(list(ks)) for n in range(4) for ks in _it.combinations(['chain', 'resname', 'resid'], n)]
+CONTRACTS.extend(SUBDICT)
+
+for _c in SUBDICT:
+    _c.modular = False          # callers inline it (one typed case per key set)
+
+# ------------------------------------------------------------------ _terminal_matches, residue_matches
+Res, GraphV = TKey('Res'), TKey('GraphV')
+
+
+def residue_world(cx):
+    nb = cx.uf('neighbours', [Res], TSeq(Res))
+    rid = cx.uf('resid_of', [Res], TInt)
+    hasrid = cx.uf('has_resid', [Res], TBool)
+    gr = cx.uf('graph_of', [Res], GraphV)
+    prot = cx.uf('is_protein_graph', [GraphV], TBool)
+    attrs = {k: (cx.uf('has_' + k, [Res], TBool) if k != 'resid' else hasrid, cx.uf(k + '_of', [Res], t) if k != 'resid' else rid)
+             for k, t in [('chain', TStr), ('resid', TInt), ('resname', TStr), ('insertion_code', TStr)]}
+
+    def node_view(e, r):
+        re_ = to_z3(r, Res)
+        o = Obj('resnode')
+
+        def get(e2, k, d=None):
+            has, f = attrs[k]
+            ty = TInt if k == 'resid' else TStr
+            return e2.ite(has(re_), wrap(ty, f(re_)), d)
+        o.attrs['get'] = Builtin(get, 'get')
+        o.attrs['__getitem__'] = Builtin(lambda e2, k: wrap(GraphV, gr(re_)) if k == 'graph' else None, 'node[]')
+        return o
+    nodes = Obj('NodeView')
+    nodes.attrs['__getitem__'] = Builtin(node_view, 'nodes[]')
+    deg = Obj('DegreeView')
+    deg.attrs['__getitem__'] = Builtin(lambda e, r: wrap(TInt, TSeq(Res).len(nb(to_z3(r, Res)))), 'degree[]')
+    g = Obj('ResidueGraph', nodes=nodes, degree=deg)
+    g.attrs['__getitem__'] = Builtin(lambda e, r: SV(TSeq(Res), nb(to_z3(r, Res))), 'graph[]')
+    cx.spec_env['is_protein'] = Builtin(lambda e, x: wrap(TBool, prot(to_z3(x, GraphV))), 'is_protein')
+    return g
+
+
+SPEC_T = {
+    'rid': "lambda r: resid_of(r) if has_resid(r) else 0",
+    'nb0': "lambda r: neighbours(r)[0]",
+    'prot': "lambda r: is_protein_graph(graph_of(r))",
+    # 'nter' / 'cter': a protein residue whose single neighbour has a higher / lower residue number
+    'terminal': "lambda name, r: prot(r) and ((rid(r) < rid(nb0(r))) if name == 'nter' else (rid(r) > rid(nb0(r))))",
+}
+
+terminal_matches = FunctionContract(
+    F, '_terminal_matches', 'C19', spec_defs=SPEC_T, spec_env=dict(Res=Res),
+    setup=lambda cx: dict(resname=cx.val('resname', TStr), residue_graph=residue_world(cx), res_idx=cx.val('res_idx', Res)),
+    requires=["len(neighbours(res_idx)) == 1"],               # "It is assumed that the degree of the specified node is 1."
+    ensures=["resname == 'nter' or resname == 'cter' or not prot(res_idx)", "result == terminal(resname, res_idx)"],
+    raises={'KeyError': ["resname != 'nter' and resname != 'cter' and prot(res_idx)"]},
+    result_ty=TBool,
+    canary=[("return resid < neighbour_resid", "return resid > neighbour_resid"), ("if not is_protein(", "if is_protein(")],
+)
+CONTRACTS.append(terminal_matches)
+
+
+def rm_case(keys):
+    def setup(cx):
+        g = residue_world(cx)
+        return dict(resspec=_cd(cx, 'spec', keys, PARTS), residue_graph=g, res_idx=cx.val('res_idx', Res))
+    parts = {k: "(has_%s(res_idx) and %s_of(res_idx) == old(resspec)['%s'])" % (k, k, k) for k in keys}
+    plain = " and ".join(parts[k] for k in keys) or "True"
+    if 'resname' in keys:
+        rest = " and ".join(parts[k] for k in keys if k == 'chain') or "True"
+        want = ("((terminal(old(resspec)['resname'], res_idx) and (%s)) if (len(neighbours(res_idx)) == 1 and "
+                "(old(resspec)['resname'] == 'nter' or old(resspec)['resname'] == 'cter')) else (%s))" % (rest, plain))
+    else:
+        want = plain
+    return FunctionContract(F, 'residue_matches', 'C19', short='residue_matches[%s]' % ','.join(keys), setup=setup,
+                            spec_defs=SPEC_T, spec_env=dict(Res=Res),
+                            ensures=["result == (%s)" % want],
+                            canary=[("residue_graph.degree[res_idx] == 1", "residue_graph.degree[res_idx] >= 1")] if 'resname' in keys else [])
+
+
+RM = [rm_case(list(ks)) for n in range(4) for ks in _it.combinations(['chain', 'resname', 'resid'], n)]
+CONTRACTS.extend(RM)
+
+for _c in RM:
+    _c.modular = False
+
+# ------------------------------------------------------------------ _resiter: the marks land on the atoms of the matching
+# residues and on no other atom
+Node = TKey('Node')
+Marks = TMap(Node, TSeq(TStr))
+
+SPEC_R = {
+    'atoms': "lambda r: atoms_of(r)",
+    'isatom': "lambda a: 0 <= rix(a) and rix(a) < len(RESIDUES) and 0 <= pix(a) and pix(a) < len(atoms_of(RESIDUES[rix(a)])) and "
+              "atoms_of(RESIDUES[rix(a)])[pix(a)] == a",
+    'marked': "lambda a: len(MARKS[a]) == (len(old(MARKS)[a]) if a in old(MARKS) else 0) + 1 and a in MARKS and "
+              "MARKS[a][len(MARKS[a]) - 1] == mod and "
+              "forall(lambda q: implies(a in old(MARKS) and 0 <= q and q < len(old(MARKS)[a]), MARKS[a][q] == old(MARKS)[a][q]))",
+    'same': "lambda a: (a in MARKS) == (a in old(MARKS)) and implies(a in MARKS, len(MARKS[a]) == len(old(MARKS)[a]) and "
+            "forall(lambda q: implies(0 <= q and q < len(MARKS[a]), MARKS[a][q] == old(MARKS)[a][q])))",
+}
+
+
+def setup_resiter(cx):
+    eng = cx.eng
+    from pyvc.builtins import getitem, dict_get, make_iter
+    residues = cx.val('RESIDUES', TSeq(Res))
+    cx.spec_env['RESIDUES'] = residues
+    atoms_of = cx.uf('atoms_of', [Res], TSeq(Node))
+    cx.uf('rix', [Node], TInt)
+    cx.uf('pix', [Node], TInt)
+    matches = cx.uf('matches', [Res], TBool)
+    MARKS = cx.heap('MARKS', cx.box('MARKS', Marks))
+    known = cx.val('known_targets', TSet(TStr))
+    cx.spec_env['known_targets'] = known
+    # residue_matches is a pure function of (specification, residue): abstracted to the predicate `matches`
+    cx.spec_env['residue_matches'] = Builtin(lambda e, spec, g, r: wrap(TBool, matches(to_z3(r, Res))), 'residue_matches')
+    cx.spec_env['_format_resname'] = Builtin(lambda e, r: 'res', '_format_resname')
+    log = Obj('LOGGER')
+    log.attrs['debug'] = Builtin(lambda e, *a, **k: None, 'debug')
+    cx.spec_env['LOGGER'] = log
+
+    def resnode(e, r):
+        o = Obj('resnode')
+        o.attrs['__getitem__'] = Builtin(lambda e2, k: SV(TSeq(Node), atoms_of(to_z3(r, Res))), 'res[]')
+        return o
+    rnodes = Obj('NodeView')
+    rnodes.attrs['__getitem__'] = Builtin(resnode, 'nodes[]')
+    graph = Obj('ResidueGraph', nodes=rnodes)
+    graph.__dict__['iter'] = residues
+
+    def atomdict(e, a):
+        o = Obj('atomdict')
+        ae = to_z3(a, Node)
+
+        def get(e2, k, d=None):
+            # molecule.nodes[a].get(key, []): the list of earlier requests, or a new empty list
+            cur = MARKS.e
+            return SV(TSeq(TStr), z3.If(Marks.has(cur, ae), Marks.at(cur, ae), TSeq(TStr).empty()))
+
+        def setit(e2, k, v):
+            MARKS.e = Marks.insert(MARKS.e, ae, to_z3(v, TSeq(TStr)))
+        o.attrs['get'] = Builtin(get, 'get')
+        o.attrs['__setitem__'] = Builtin(setit, '[]=')
+        return o
+    mnodes = Obj('NodeView')
+    mnodes.attrs['__getitem__'] = Builtin(atomdict, 'nodes[]')
+    ff = Obj('ff', name='ff')
+    molecule = Obj('Molecule', nodes=mnodes, force_field=ff)
+    library = Obj('library')
+    library.__dict__['contains'] = known
+    return dict(mod=cx.val('mod', TStr), residue_graph=graph, resspec=Obj('resspec'), library=library, key=cx.val('key', TStr),
+                molecule=molecule)
+
+
+PART = ["forall(lambda k, j: implies(0 <= k and k < len(RESIDUES) and 0 <= j and j < len(atoms_of(RESIDUES[k])), "
+        "   rix(atoms_of(RESIDUES[k])[j]) == k and pix(atoms_of(RESIDUES[k])[j]) == j))",
+        "forall(lambda r: len(atoms_of(r)) >= 0, Res)"]
+DONE_UPTO = ("forall(lambda a: implies(isatom(a) and (rix(a) < {K} or (rix(a) == {K} and pix(a) < {J})) and matches(RESIDUES[rix(a)]), marked(a)), Node)",
+             "forall(lambda a: implies(not (isatom(a) and (rix(a) < {K} or (rix(a) == {K} and pix(a) < {J})) and matches(RESIDUES[rix(a)])), same(a)), Node)")
+
+resiter = FunctionContract(
+    F, '_resiter', 'C19', setup=setup_resiter, spec_defs=SPEC_R, spec_env=dict(Res=Res, Node=Node),
+    axioms=lambda cx, env: [cx.eng._b(cx.eng.spec_truth(a, env)) for a in PART],
+    result_ty=TBool,
+    ensures=[
+        # every atom of every matching residue gets the request appended to its list -- and no other atom is touched
+        DONE_UPTO[0].format(K='len(RESIDUES)', J='0'), DONE_UPTO[1].format(K='len(RESIDUES)', J='0'),
+        # the request is reported as found exactly when some residue matches
+        "result == exists(lambda k: 0 <= k and k < len(RESIDUES) and matches(RESIDUES[k]))",
+        "implies(result, mod == 'none' or mod in known_targets)",
+    ],
+    # an unknown target is an error as soon as a residue matches
+    raises={'NameError': ["exists(lambda k: 0 <= k and k < len(RESIDUES) and matches(RESIDUES[k]))", "mod != 'none' and not (mod in known_targets)"]},
+    modifies=['MARKS'],
+    loops={
+        'L1': LoopSpec(inv=[DONE_UPTO[0].format(K='_i', J='0'), DONE_UPTO[1].format(K='_i', J='0'),
+                            "mod_found == exists(lambda k: 0 <= k and k < _i and matches(RESIDUES[k]))",
+                            "implies(mod_found, mod == 'none' or mod in known_targets)"], modifies=['MARKS']),
+        'L1.1': LoopSpec(inv=[DONE_UPTO[0].format(K='_iL1', J='_i'), DONE_UPTO[1].format(K='_iL1', J='_i')], modifies=['MARKS']),
+    },
+    canary=[("+ [mod]", "+ [key]"), ("if residue_matches(resspec, residue_graph, res_idx):", "if not residue_matches(resspec, residue_graph, res_idx):")],
+)
+CONTRACTS.append(resiter)
